@@ -248,6 +248,7 @@ func c02One(c *Ctx, b *Batch, pkg string, cs respCase, respType string, schema *
 		c.Res.Add(proto.Finding{Kind: "violation", Class: class, What: what, Case: cs, Impl: impl})
 	}
 	r := b.Call(map[string]any{"cmd": "unmarshal", "pkg": pkg, "type": respType, "json": string(js)})
+	codecCompare(c, parseGoDecls(b.Pkgs[pkg].Src), cs, respType, string(js), r)
 	if cr, ok := r["crash"]; ok {
 		fail("probe-crash", fmt.Sprint(cr), nil)
 		return
